@@ -25,8 +25,18 @@ namespace hgraph
     std::size_t TSSInputView::slot_capacity() const { return data_view().slot_capacity(); }
     bool TSSInputView::slot_occupied(std::size_t slot) const { return data_view().slot_occupied(slot); }
     bool TSSInputView::slot_live(std::size_t slot) const { return data_view().slot_live(slot); }
-    bool TSSInputView::slot_added(std::size_t slot) const { return data_view().slot_added(slot); }
-    bool TSSInputView::slot_removed(std::size_t slot) const { return data_view().slot_removed(slot); }
+    // The producer clears its delta masks lazily (on its next mutation), so the raw bits outlive the
+    // cycle that produced them: gate them on this cycle's modification like added() / removed() and
+    // the TSDInputView siblings do.
+    bool TSSInputView::slot_added(std::size_t slot) const
+    {
+        if (!modified()) { return false; }
+        return view_.inherited_sampled_transition() ? slot_live(slot) : data_view().slot_added(slot);
+    }
+    bool TSSInputView::slot_removed(std::size_t slot) const
+    {
+        return modified() && !view_.inherited_sampled_transition() && data_view().slot_removed(slot);
+    }
     ValueView TSSInputView::at_slot(std::size_t slot) const { return data_view().at_slot(slot); }
     bool TSSInputView::contains(const ValueView &key) const { return data_view().contains(key); }
     std::size_t TSSInputView::find_slot(const ValueView &key) const { return data_view().find_slot(key); }
